@@ -14,6 +14,7 @@ import MW.Props.C01
 import MW.Model.Locks
 import MW.Gen.Locks
 import MW.Lemmas.Locks
+import MW.Lemmas.IsoBridge
 namespace MW.Props.C17
 open MW MW.Model.Ledger MW.Model.Iso MW.Lemmas.Iso
 
@@ -49,7 +50,8 @@ theorem select_snapshot (vs : Nat → Store) (v : Nat → Nat) (hv : Mono v) (w 
         pick ((listCoins (vs i).syncedTo (coinsOf (vs i) w)).filter (eligible (vs i).pendIns)) :=
   view_snapshot vs v hv (selectQ w pick) j
 
-/-- hence (with C01's height invariant of a version, `HeightsOk`): a coin counted as spendable /
+/-- hence (with C01's height invariant of a version, `HeightsOk` – a THEOREM for every store a C01 history reaches:
+    `heightsOk_reached` below): a coin counted as spendable /
     withdrawable in a balance answer really has that many confirmations in that version – the count is
     the true depth `tip − height + 1`, no wrap-around – so an immature or still locked coin is never
     counted (`MW.Props.C01.maturity_iff_*` turn "depth ≥ recorded maturity" into the consensus rule). -/
@@ -99,6 +101,101 @@ theorem build_inputs_mature (S : Store) (w : Wid) (h : HeightsOk S w) (sel : Lis
   have he := hm.2
   simp only [eligible, Bool.and_eq_true, decide_eq_true_eq, Option.isNone_iff_eq_none, Bool.not_eq_true'] at he
   exact ⟨by rw [← hc]; exact he.1.1.1, he.2, he.1.1.2⟩
+
+/-! #### `HeightsOk` is not an assumption: it follows from the ledger invariant of C01 -/
+
+section bridge
+open MW.Lemmas.Ledger MW.Lemmas.IsoBridge MW.Spec.Chain
+
+/-- THE BRIDGE C01 ⇒ C17: a store that holds the books of a valid chain whose heights are positions
+    (`MW.Lemmas.Ledger.Inv`, the invariant of `MW.Props.C01`), with a well-formed unspent index and a synced height
+    below 2^31, satisfies `HeightsOk` for every wallet -/
+theorem heightsOk_of_ledger_inv {c : Ctx} {s : Store} {chain : List Block} (hI : Inv c s chain)
+    (hWF : KeysNodup s.unspent) (hV : ChainValid c.own chain) (hH : HeightsOK chain)
+    (hb : s.syncedTo < 2^31) (w : Wid) : HeightsOk s w := heightsOk_of_inv hI hWF hV hH hb w
+
+/-- `HeightsOk` in every store a C01 history reaches – ANY finite history of node events (extend, reorganise)
+    and handler steps (`RunHyp`), at ANY point of it (notifications pending or not); the only hypothesis left is
+    the size bound -/
+theorem heightsOk_reached (e : Env) (G : Block) (w0 : World) (evs : List Ev) (H : RunHyp e G w0 evs)
+    (h0 : Inv (e.ctx w0.chain) w0.s w0.chain) (hv0 : w0.v.best = tipMeta w0.chain) (hq0 : w0.queue = [])
+    (hwf0 : KeysNodup w0.s.unspent) (hb : (runW e w0 evs).s.syncedTo < 2^31) (w : Wid) :
+    HeightsOk (runW e w0 evs).s w := MW.Lemmas.IsoBridge.heightsOk_reached e G w0 evs H h0 hv0 hq0 hwf0 hb w
+
+/-- … with addresses issued along the way (`RunHypI`) -/
+theorem heightsOk_reached_issue (e : Env) (G : Block) (x0 : WorldI) (evs : List EvI) (H : RunHypI e G x0 evs)
+    (h0 : Inv ({ e with own := x0.own }.ctx x0.w.chain) x0.w.s x0.w.chain)
+    (hv0 : x0.w.v.best = tipMeta x0.w.chain) (hq0 : x0.w.queue = [])
+    (hwf0 : KeysNodup x0.w.s.unspent) (hb : (runI e x0 evs).w.s.syncedTo < 2^31) (w : Wid) :
+    HeightsOk (runI e x0 evs).w.s w :=
+  MW.Lemmas.IsoBridge.heightsOk_reached_issue e G x0 evs H h0 hv0 hq0 hwf0 hb w
+
+/-- the store versions a query can see – version `i` = the store after the first `pre i` events of a C01 history,
+    each handler step being one commit – all satisfy `HeightsOk` -/
+theorem versions_heightsOk (e : Env) (G : Block) (w0 : World) (evs : List Ev) (H : RunHyp e G w0 evs)
+    (h0 : Inv (e.ctx w0.chain) w0.s w0.chain) (hv0 : w0.v.best = tipMeta w0.chain) (hq0 : w0.queue = [])
+    (hwf0 : KeysNodup w0.s.unspent) (vs : Nat → Store) (pre : Nat → Nat)
+    (hvs : ∀ i, vs i = (runW e w0 (evs.take (pre i))).s) (hb : ∀ i, (vs i).syncedTo < 2^31) (i : Nat) (w : Wid) :
+    HeightsOk (vs i) w := MW.Lemmas.IsoBridge.versions_heightsOk e G w0 evs H h0 hv0 hq0 hwf0 vs pre hvs hb i w
+
+/-- NO UNSIGNED WRAP, NO IMMATURE COIN COUNTED – WITHOUT THE ASSUMPTION: in a store reached by a C01 history a coin
+    counted as spendable / withdrawable has true depth `tip − height + 1 ≥ minConf` and `≥` its recorded maturity -/
+theorem reached_no_immature (e : Env) (G : Block) (w0 : World) (evs : List Ev) (H : RunHyp e G w0 evs)
+    (h0 : Inv (e.ctx w0.chain) w0.s w0.chain) (hv0 : w0.v.best = tipMeta w0.chain) (hq0 : w0.queue = [])
+    (hwf0 : KeysNodup w0.s.unspent) (hb : (runW e w0 evs).s.syncedTo < 2^31) (w : Wid) (mc : Nat) (c : Coin)
+    (hc : c ∈ coinsOf (runW e w0 evs).s w) (hs : countedSpendable mc (runW e w0 evs).s.syncedTo c = true) :
+    (runW e w0 evs).s.syncedTo - c.blk.height + 1 ≥ mc ∧
+      (runW e w0 evs).s.syncedTo - c.blk.height + 1 ≥ c.cred.maturity :=
+  snapshot_no_immature _ w (heightsOk_reached e G w0 evs H h0 hv0 hq0 hwf0 hb w) mc c hc hs
+
+/-- … the reported confirmation count of a listed coin is its true depth -/
+theorem reached_listed_confs (e : Env) (G : Block) (w0 : World) (evs : List Ev) (H : RunHyp e G w0 evs)
+    (h0 : Inv (e.ctx w0.chain) w0.s w0.chain) (hv0 : w0.v.best = tipMeta w0.chain) (hq0 : w0.queue = [])
+    (hwf0 : KeysNodup w0.s.unspent) (hb : (runW e w0 evs).s.syncedTo < 2^31) (w : Wid) (l : Listed)
+    (hl : l ∈ listCoins (runW e w0 evs).s.syncedTo (coinsOf (runW e w0 evs).s w)) :
+    l.confs32 = (runW e w0 evs).s.syncedTo - l.coin.blk.height + 1 :=
+  snapshot_listed_confs _ w (heightsOk_reached e G w0 evs H h0 hv0 hq0 hwf0 hb w) l hl
+
+/-- … the coin scan names no outpoint twice (the unspent index stays well-formed along the history) -/
+theorem reached_no_double_count (e : Env) (w0 : World) (evs : List Ev) (hwf0 : KeysNodup w0.s.unspent) (w : Wid) :
+    ((coinsOf (runW e w0 evs).s w).map (fun c => (c.tx, c.idx))).Nodup :=
+  snapshot_no_double_count _ w ((nodupKeys_iff _).2 (wf_runW e w0 evs hwf0))
+
+/-- … and the inputs a successful transaction-building call selects from such a version are mature there -/
+theorem reached_inputs_mature (e : Env) (G : Block) (w0 : World) (evs : List Ev) (H : RunHyp e G w0 evs)
+    (h0 : Inv (e.ctx w0.chain) w0.s w0.chain) (hv0 : w0.v.best = tipMeta w0.chain) (hq0 : w0.queue = [])
+    (hwf0 : KeysNodup w0.s.unspent) (hb : (runW e w0 evs).s.syncedTo < 2^31) (w : Wid) (sel : List Listed)
+    (hs : sel.Sublist ((listCoins (runW e w0 evs).s.syncedTo (coinsOf (runW e w0 evs).s w)).filter
+      (eligible (runW e w0 evs).s.pendIns))) (l : Listed) (hl : l ∈ sel) :
+    (runW e w0 evs).s.syncedTo - l.coin.blk.height + 1 ≥ l.coin.cred.maturity ∧ l.coin.cred.cls = .standard ∧
+      AMap.get (runW e w0 evs).s.pendIns (l.coin.tx, l.coin.idx) = none :=
+  build_inputs_mature _ w (heightsOk_reached e G w0 evs H h0 hv0 hq0 hwf0 hb w) sel hs l hl
+
+/-- A BALANCE QUERY RACING WITH THE FOLLOWER, end to end: the store versions are those of a C01 history (one per
+    commit), read transactions are snapshot-backed; the answer is `walletBalance` of ONE version between the call's
+    start and end, and that version satisfies `HeightsOk` – so every coin it counts has its true depth -/
+theorem balance_snapshot_reached (e : Env) (G : Block) (w0 : World) (evs : List Ev) (H : RunHyp e G w0 evs)
+    (h0 : Inv (e.ctx w0.chain) w0.s w0.chain) (hv0 : w0.v.best = tipMeta w0.chain) (hq0 : w0.queue = [])
+    (hwf0 : KeysNodup w0.s.unspent) (vs : Nat → Store) (pre : Nat → Nat)
+    (hvs : ∀ i, vs i = (runW e w0 (evs.take (pre i))).s) (hb : ∀ i, (vs i).syncedTo < 2^31)
+    (v : Nat → Nat) (hv : Mono v) (w : Wid) (mc : Nat) (j : Nat) :
+    ∃ i, v j ≤ i ∧ i ≤ v ((single (balanceQ w mc)).run true vs v j).2 ∧
+      ((single (balanceQ w mc)).run true vs v j).1 = walletBalance (vs i) w mc ∧ HeightsOk (vs i) w := by
+  obtain ⟨i, h1, h2, h3⟩ := balance_snapshot vs v hv w mc j
+  exact ⟨i, h1, h2, h3, versions_heightsOk e G w0 evs H h0 hv0 hq0 hwf0 vs pre hvs hb i w⟩
+
+/-- non-vacuity: the hypotheses hold on the worked history of C01 (with a reorganisation) and its fresh store -/
+example : RunHyp hxEnv hxG hxW0 hxEvs := hxRunHyp
+example : KeysNodup hxW0.s.unspent := by unfold KeysNodup; decide
+example : (runW hxEnv hxW0 hxEvs).s.syncedTo < 2^31 := by decide
+example (w : Wid) : HeightsOk (runW hxEnv hxW0 hxEvs).s w :=
+  heightsOk_reached hxEnv hxG hxW0 hxEvs hxRunHyp
+    ((inv_ctx_irrel (c := obCtx) (c' := hxEnv.ctx [hxG]) rfl rfl rfl).1 obInv0) rfl rfl
+    (by unfold KeysNodup; decide) (by decide) w
+/-- … and the bridge has content: the reached store lists coins -/
+example : (coinsOf (runW hxEnv hxW0 hxEvs).s "w1").length = 2 := by decide
+
+end bridge
 
 /-! #### the unfixed driver: no snapshot -/
 
